@@ -294,7 +294,7 @@ func writeReplay(env *work.Env, w *work.Workload, v core.Violation, runSeed, idx
 	if dir == "" {
 		dir = "."
 	}
-	path := filepath.Join(dir, fmt.Sprintf("replay-%s-%s-%d-%s.json", v.Property, w.Name, runSeed, safe(v.Class+"-"+v.Key)))
+	path := filepath.Join(dir, fmt.Sprintf("replay-%s-%s-%d-%s-%04x.json", v.Property, w.Name, runSeed, safe(v.Class+"-"+v.Key), core.MixS(v.ID())&0xffff))
 	if err := core.WriteJSON(path, rp); err != nil {
 		fmt.Fprintln(os.Stderr, "vsim:", err)
 	}
